@@ -33,13 +33,24 @@ Proof. exact stderr_iff_failure. Qed.
 Print Assumptions C19_stderr_iff_failure.
 
 (* -e on an otherwise successful run: exit 1 exactly when there is no result
-   or every result is null or the literal false *)
+   or no result counts as a match (isTruthyNode) ... *)
 Theorem C19_e_flag : forall c w fid rs,
   has_input c = true -> c_exit_status c = true ->
   usable_formats c = Some fid -> expected c w = Some rs -> all_encoded fid (c_nul c) rs = true ->
-  (o_exit (run c w) = 1%N <-> Forall (fun r => null_or_literal_false (r_node r) = true) rs).
+  (o_exit (run c w) = 1%N <-> Forall (fun r => not_a_match (r_node r) = true) rs).
 Proof. exact e_flag. Qed.
 Print Assumptions C19_e_flag.
+
+(* ... which is the documented rule -- no result, or every result null or
+   false -- for booleans in any of the spellings YAML resolves (False / FALSE
+   used to count as a match; fixed in /repo, see KNOWN_FINDINGS) *)
+Theorem C19_e_flag_documented : forall c w fid rs,
+  has_input c = true -> c_exit_status c = true ->
+  usable_formats c = Some fid -> expected c w = Some rs -> all_encoded fid (c_nul c) rs = true ->
+  Forall (fun r => bool_well_spelled (r_node r) = true) rs ->
+  (o_exit (run c w) = 1%N <-> Forall (fun r => null_or_false (r_node r) = true) rs).
+Proof. exact e_flag_documented. Qed.
+Print Assumptions C19_e_flag_documented.
 
 (* -n: the outcome does not depend on any file or on stdin; files together with -n are rejected *)
 Theorem C19_n_reads_nothing : forall c w1 w2,
@@ -76,30 +87,22 @@ Definition w_one (n : node) : world :=
 Definition cli_o (o : string) (nul e : bool) : cli :=
   mkCli false [] (str_of_string o) false [str_of_string "f.yml"] false false false false None e nul.
 
-(* -o=csv of [{? [1,2] : 3}]: the header row cannot be written, the error is
-   swallowed: exit 0, nothing on stdout *)
-Definition n_cplx_key : node := NSeq [NMap [(NSeq [sc "1"; sc "2"], sc "3")]].
-Theorem C19_csv_swallow_refuted : exists c w fid rs,
-  has_input c = true /\ o_exit (run c w) = 0%N /\ usable_formats c = Some fid /\ expected c w = Some rs /\
-  rs <> [] /\ o_shown (run c w) = [].
-Proof.
-  exists (cli_o "csv" false false), (w_one n_cplx_key). eexists. eexists.
-  repeat split; try (vm_compute; reflexivity). vm_compute. discriminate.
-Qed.
-Print Assumptions C19_csv_swallow_refuted.
+(* -o=csv / -o=tsv of objects whose header row cannot be written (a non-scalar
+   key in the first object, e.g. [{? [1,2] : 3}]) is an error (was swallowed:
+   exit 0 with empty output; fixed in /repo bca2291) *)
+Theorem C19_csv_header_error_reported : forall nul l rest,
+  csv_row_ok (map_keys (NMap l)) = false ->
+  enc_class id_CSVFormat nul (NSeq (NMap l :: rest)) = EncErr /\
+  enc_class id_TSVFormat nul (NSeq (NMap l :: rest)) = EncErr.
+Proof. exact csv_header_error. Qed.
+Print Assumptions C19_csv_header_error_reported.
 
-(* -0 (NUL separated output) with csv / tsv of a sequence, xml of a map: the
-   encoder buffers privately and nobody flushes: exit 0, data dropped *)
-Theorem C19_nul_output_drops_refuted :
-  enc_class id_CSVFormat true (NSeq [sc "a"; sc "b"]) = EncOk false /\
-  enc_class id_TSVFormat true (NSeq [NSeq [sc "a"]]) = EncOk false /\
-  enc_class id_XMLFormat true (NMap [(sc "k", sc "v")]) = EncOk false /\
-  exists c w, has_input c = true /\ o_exit (run c w) = 0%N /\ o_encoded (run c w) = [1%N] /\ o_shown (run c w) = [].
-Proof.
-  repeat split; try (vm_compute; reflexivity).
-  exists (cli_o "xml" true false), (w_one (NMap [(sc "k", sc "v")])). repeat split; vm_compute; reflexivity.
-Qed.
-Print Assumptions C19_nul_output_drops_refuted.
+(* -0 (NUL separated output) does not change what an encoder accepts or
+   completes (csv/tsv sequences and xml maps used to come out empty; fixed in
+   /repo a492170); tied to the binary by the plain / -0 halves of the encoder table *)
+Theorem C19_nul_output_same_class : forall fid n, enc_class fid true n = enc_class fid false n.
+Proof. exact nul_same_class. Qed.
+Print Assumptions C19_nul_output_same_class.
 
 (* a mapping key that is not a scalar is printed as an empty name (json) or
    dropped (props, shell) with exit 0 *)
@@ -111,24 +114,11 @@ Theorem C19_complex_key_refuted :
 Proof. cbv zeta. repeat split; vm_compute; reflexivity. Qed.
 Print Assumptions C19_complex_key_refuted.
 
-(* -e: YAML false spelled False / FALSE counts as a match: exit 0 although
-   every result is false *)
-Theorem C19_e_false_spelling_refuted : exists c w fid rs,
-  has_input c = true /\ c_exit_status c = true /\ usable_formats c = Some fid /\ expected c w = Some rs /\
-  Forall (fun r => null_or_false (r_node r) = true) rs /\ o_exit (run c w) = 0%N.
-Proof.
-  exists (cli_o "yaml" false true), (w_one (NScalar TagBool (str_of_string "False"))). eexists. eexists.
-  split; [vm_compute; reflexivity|]. split; [reflexivity|]. split; [vm_compute; reflexivity|].
-  split; [vm_compute; reflexivity|]. split; [|vm_compute; reflexivity].
-  constructor; [vm_compute; reflexivity | constructor].
-Qed.
-Print Assumptions C19_e_false_spelling_refuted.
-
-(* an extension naming a format without decoder (x.sh, x.s, -p=shell): the nil
-   DecoderFactory is called: Go panic, exit status 2 (non-zero, with a stack trace) *)
-Example C19_decoderless_format_panics :
-  o_exit (run (mkCli false [] [] false [str_of_string "x.sh"] false false false false None false false)
-              (w_one (sc "v"))) = 2%N.
+(* an extension naming a format without decoder (x.sh, x.s, -p=shell) is an
+   ordinary error: exit 1 with a message (was a nil-pointer panic, fixed in /repo 2c3a0ea) *)
+Example C19_decoderless_format_error :
+  run (mkCli false [] [] false [str_of_string "x.sh"] false false false false None false false) (w_one (sc "v"))
+  = mkOut 1 [] [] true false.
 Proof. vm_compute. reflexivity. Qed.
 
 (* non-vacuity: three files, an undecodable document in the second: exit 1,
